@@ -14,6 +14,9 @@ Lemma broadcast_init_spec : results_handler_broadcasts_init = true. Proof. vm_co
 Lemma death_order_spec : death_stores_before_signalling = true. Proof. vm_compute. reflexivity. Qed.
 Lemma timeout_order_spec : timeout_signals_kills_then_stores = true. Proof. vm_compute. reflexivity. Qed.
 Lemma handle_exception_spec : handle_exception_waits_for_named_job = true. Proof. vm_compute. reflexivity. Qed.
+Lemma stored_reset_spec : stored_exceptions_reset_when_workers_start = true. Proof. vm_compute. reflexivity. Qed.
+Lemma finit_stale_eq stale scripts : finit_stale stale scripts = finit scripts.
+Proof. unfold finit_stale, finit. rewrite stored_reset_spec. reflexivity. Qed.
 Ltac ffacts := rewrite ?raise_order_spec, ?run_safely_first_spec, ?broadcast_init_spec, ?death_order_spec, ?timeout_order_spec,
   ?handle_exception_spec in *.
 
